@@ -76,8 +76,30 @@ func NewUpstream(addr string) (*Upstream, error) {
 	return u, nil
 }
 
+// NewUpstreamTLS is NewUpstream behind a TLS listener.
+func NewUpstreamTLS(addr string, cfg *tls.Config) (*Upstream, error) {
+	ln, err := net.Listen("tcp", addr)
+	if err != nil {
+		return nil, err
+	}
+	u := &Upstream{ln: tls.NewListener(ln, cfg), reqs: map[string]*Request{}, Default: Script{Status: 200, Framing: "length", Body: []byte("default")}}
+	go u.serve()
+	return u, nil
+}
+
+// OpenConns is the number of connections currently open at the upstream.
+func (u *Upstream) OpenConns() int {
+	n := 0
+	u.open.Range(func(_, _ any) bool { n++; return true })
+	return n
+}
+
 func (u *Upstream) Addr() string { return u.ln.Addr().String() }
-func (u *Upstream) Port() int    { return u.ln.Addr().(*net.TCPAddr).Port }
+func (u *Upstream) Port() int {
+	_, p, _ := net.SplitHostPort(u.ln.Addr().String())
+	n, _ := strconv.Atoi(p)
+	return n
+}
 func (u *Upstream) Close() {
 	u.ln.Close()
 	u.open.Range(func(k, _ any) bool { k.(net.Conn).Close(); return true })
